@@ -46,6 +46,8 @@ pub struct SimSourceExec {
     pub accept_filters: bool,
     /// accepted filters, evaluated afresh on every batch
     filters: Vec<Arc<dyn PhysicalExpr>>,
+    /// string column as Utf8View
+    view: bool,
 }
 
 impl SimSourceExec {
@@ -65,7 +67,19 @@ impl SimSourceExec {
         projection: Option<Vec<usize>>,
         stats: Arc<SourceStats>,
     ) -> Self {
-        let full = table_schema();
+        Self::build_view(name, scripts, ordering, unbounded, projection, stats, false)
+    }
+    #[allow(clippy::too_many_arguments)]
+    pub fn build_view(
+        name: &str,
+        scripts: Vec<Vec<Step>>,
+        ordering: Option<LexOrdering>,
+        unbounded: bool,
+        projection: Option<Vec<usize>>,
+        stats: Arc<SourceStats>,
+        view: bool,
+    ) -> Self {
+        let full = crate::data::schema_for(view);
         let schema = match &projection {
             Some(p) => Arc::new(full.project(p).expect("projection")),
             None => full,
@@ -80,7 +94,7 @@ impl SimSourceExec {
             EmissionType::Incremental,
             if unbounded { Boundedness::Unbounded { requires_infinite_memory: false } } else { Boundedness::Bounded },
         );
-        SimSourceExec { name: name.to_string(), schema, scripts, props: Arc::new(props), stats, projection, accept_filters: false, filters: vec![] }
+        SimSourceExec { name: name.to_string(), schema, scripts, props: Arc::new(props), stats, projection, accept_filters: false, filters: vec![], view }
     }
     pub fn with_accept_filters(mut self, yes: bool) -> Self {
         self.accept_filters = yes;
@@ -151,6 +165,7 @@ impl ExecutionPlan for SimSourceExec {
             Arc::clone(&self.stats),
             self.projection.clone(),
             self.filters.clone(),
+            self.view,
         )))
     }
 }
@@ -168,6 +183,7 @@ pub struct ScriptStream {
     endless: Option<Vec<crate::data::Row>>,
     last_step: u64,
     in_step: u64,
+    view: bool,
 }
 
 /// An always-ready input may be pulled at most this often inside one task poll before the
@@ -185,8 +201,9 @@ impl ScriptStream {
         stats: Arc<SourceStats>,
         projection: Option<Vec<usize>>,
         filters: Vec<Arc<dyn PhysicalExpr>>,
+        view: bool,
     ) -> Self {
-        ScriptStream { schema, script: script.into_iter(), part, stats, sleeping: None, stalled: false, done: false, projection, filters, endless: None, last_step: 0, in_step: 0 }
+        ScriptStream { schema, script: script.into_iter(), part, stats, sleeping: None, stalled: false, done: false, projection, filters, endless: None, last_step: 0, in_step: 0, view }
     }
 }
 
@@ -238,7 +255,7 @@ impl Stream for ScriptStream {
                     self.done = true;
                     return Poll::Ready(None);
                 }
-                let mut b = rows_to_batch(&rows);
+                let mut b = crate::data::rows_to_batch_for(&rows, self.view);
                 if let Some(p) = &self.projection {
                     b = if p.is_empty() {
                         RecordBatch::try_new_with_options(
@@ -267,7 +284,7 @@ impl Stream for ScriptStream {
                     self.stats.batches.fetch_add(1, Ordering::Relaxed);
                     self.stats.rows.fetch_add(rows.len() as u64, Ordering::Relaxed);
                     sim::trace_event("src_batch", self.part as u64);
-                    let mut b = rows_to_batch(&rows);
+                    let mut b = crate::data::rows_to_batch_for(&rows, self.view);
                     if let Some(p) = &self.projection {
                         b = if p.is_empty() {
                             RecordBatch::try_new_with_options(
